@@ -159,17 +159,33 @@ def run(repo: Repo, rep: Report, tier: str) -> None:
     rep.rule("C08-R5", "axis agreement in occupancy/centre arithmetic of the layout modules: an expression `<pos>[i] +/- <footprint>[j] / 2` must have i == j "
              "(a crossed axis marks a non-square entity's tiles in the wrong place, so relays or poles can be put on top of it)")
     n_ax = 0
+
+    def axis_of(e: ast.AST) -> set[int]:
+        out: set[int] = set()
+        for x in ast.walk(e):
+            if isinstance(x, ast.Subscript) and isinstance(x.slice, ast.Constant) and isinstance(x.slice.value, int) and x.slice.value in (0, 1) and any(k in norm(x.value) for k in ("position", "footprint", "pos", "tile")):
+                out.add(x.slice.value)
+            if isinstance(x, ast.Name):
+                if x.id.endswith("_x") or x.id in ("x", "width", "tile_x", "center_x", "footprint_w"):
+                    out.add(0)
+                if x.id.endswith("_y") or x.id in ("y", "height", "tile_y", "center_y", "footprint_h"):
+                    out.add(1)
+        return out
+
     for f in repo.all_funcs():
         if ".layout." not in f.module.name + ".":
             continue
         for n in walk_local(f.node):
-            if isinstance(n, ast.BinOp) and isinstance(n.op, (ast.Add, ast.Sub)) and isinstance(n.left, ast.Subscript) and isinstance(n.left.slice, ast.Constant) and isinstance(n.left.slice.value, int):
-                idx = [x.slice.value for x in ast.walk(n.right) if isinstance(x, ast.Subscript) and isinstance(x.slice, ast.Constant) and isinstance(x.slice.value, int) and "footprint" in norm(x.value)]
-                if not idx:
+            if isinstance(n, ast.BinOp) and isinstance(n.op, (ast.Add, ast.Sub)):
+                rt = norm(n.right)
+                if not any(k in rt for k in ("footprint", "width", "height")):
+                    continue
+                la, ra = axis_of(n.left), axis_of(n.right)
+                if len(la) != 1 or len(ra) != 1:
                     continue
                 n_ax += 1
-                rep.check(all(i == n.left.slice.value for i in idx), "C08-R5", f"{f.short}: `{norm(n)[:60]}` uses one axis", "axes agree" if all(i == n.left.slice.value for i in idx) else "x/y crossed", f.loc(n))
-    rep.floor("C08-R5", "axis-indexed footprint expressions", n_ax, 4)
+                rep.check(la == ra, "C08-R5", f"{f.short}: `{norm(n)[:60]}` uses one axis", "axes agree" if la == ra else "x/y crossed", f.loc(n))
+    rep.floor("C08-R5", "axis-indexed footprint expressions", n_ax, 6)
 
     # ---------------- R6 ---------------------------------------------------------------
     rep.rule("C08-R6", "relay poles never join two circuit networks: network ids are distinct per (source, colour) and a relay is reused only for its own network (shared with C12-R1/R2)")
